@@ -128,7 +128,7 @@ Proof.
     by (apply lexsafe_join_plain_l; assumption).
   assert (Hun : lexsafe (uncompressed_path (pjoin rdir (parse name))) = true)
     by (apply uncompressed_rp_lexsafe; assumption).
-  apply in_app_or in Hq as [Hq|[<-|[]]]; [|exact Hun].
+  apply in_app_or in Hq as [Hq|[]].
   destruct ubh; cbn in Hq.
   - destruct Hq as [<-|[<-|[]]]; [apply hashed_path_lexsafe; assumption|exact Hrpl].
   - destruct Hq as [<-|[]]; exact Hrpl.
@@ -251,8 +251,7 @@ Proof. eexists; eexists; split; [vm_compute; reflexivity|split; [left; reflexivi
 Example release_accepts_ordinary :
   release_entry_targets true w_root w_rdir "main/binary-amd64/Packages.xz" SHA256 "abc123" true
   = Some [parse "dists/c/main/binary-amd64/by-hash/SHA256/abc123";
-          parse "dists/c/main/binary-amd64/Packages.xz";
-          parse "dists/c/main/binary-amd64/Packages"].
+          parse "dists/c/main/binary-amd64/Packages.xz"].
 Proof. vm_compute. reflexivity. Qed.
 Example packages_accepts_ordinary :
   packages_targets true w_root "pool/main/a/a_1.deb" = Some [parse "pool/main/a/a_1.deb"].
